@@ -28,7 +28,7 @@ Init == law \in (MassLaws \cup HillLaws) /\ pt = NoPt /\ pc = "choose"
 
 Eval == /\ pc = "choose"
         /\ \E x \in Points(law), V \in VGrid :
-              /\ Defined(law, x, V)
+              /\ (Defined(law, x, V) = TRUE)
               /\ pt' = [x |-> x, V |-> V, det |-> Det(law, x), vol |-> Vol(law, x, V),
                         sto |-> Sto(law, x), stovol |-> StoVol(law, x, V)]
         /\ pc' = "done" /\ law' = law
